@@ -89,12 +89,15 @@ void error_tok(Token *tok, char *fmt, ...) {
   // A token from the replacement list of a predefined or command-line
   // macro has no position in any input file. Report the place where
   // the macro was used instead.
+  // Such a token carries the line number of that place, including
+  // the effect of #line, which the token of the use itself may lack.
+  int line_no = tok->line_no;
   while (tok->origin && !strcmp(tok->file->name, "<built-in>"))
     tok = tok->origin;
 
   va_list ap;
   va_start(ap, fmt);
-  verror_at(tok->file->name, tok->file->contents, tok->line_no, tok->loc, fmt, ap);
+  verror_at(tok->file->name, tok->file->contents, line_no, tok->loc, fmt, ap);
   exit(1);
 }
 
